@@ -382,3 +382,36 @@ def timeline_record(rep, rid: str, prog, fields: tuple[str, ...] = ("attempt", "
         from ..model import AnalysisError
 
         raise AnalysisError(f"{rid}: no TimelineEvent construction found in _TimelineCollector.record")
+
+
+def timeline_hook(prog):
+    """(the function installed as the metric hook when a timeline is captured, how `_resolve_timeline` refers to it):
+    a function nested in `_resolve_timeline` returned by name, or a method of the collector returned bound
+    (`_TimelineCollector(timeline, forward_to=on_metric).hook`).  None when neither shape is found."""
+    from ..ctx import engine
+
+    tl = prog.func("redress.policy.runner.timeline:_resolve_timeline")
+    for p in engine(prog).paths(tl):
+        if p.exit[0] != "return":
+            continue
+        v = p.exit[1]
+        if not (isinstance(v, tuple) and v[0] == "tuple" and len(v[1]) == 2):
+            continue
+        second = v[1][1]
+        if isinstance(second, tuple) and len(second) == 2 and second[0] == "global" and second[1] in prog.funcs and prog.funcs[second[1]].parent is tl:
+            return prog.funcs[second[1]], second
+        if isinstance(second, tuple) and len(second) == 3 and second[0] == "attr":
+            base = second[1]
+            cname = None
+            if isinstance(base, tuple) and base and base[0] == "pure" and isinstance(base[1], str) and base[1].startswith("new "):
+                cname = base[1][4:]
+            elif isinstance(base, tuple) and base and base[0] == "call":
+                ev = next((e for e in p.calls(pure=None) if e.result == base), None)
+                tg = ev.targets[0] if ev is not None and ev.targets else None
+                cname = tg.cls.name if tg is not None and tg.kind == "ctor" and tg.cls is not None else None
+            cands = [c for c in prog.classes.values() if c.name == cname] if cname else []
+            if len(cands) == 1:
+                m = prog.find_method(cands[0], second[2])
+                if m is not None:
+                    return m, second
+    return None, None
